@@ -88,9 +88,29 @@ func (c *Ctx) runArgMin(pkgs []*packages.Package, rule string) {
 				name := declName(p, fd)
 				c.analysed(name)
 				n := 0
+				restOf := map[ast.Stmt][]ast.Stmt{}
+				ast.Inspect(fd.Body, func(m ast.Node) bool {
+					var list []ast.Stmt
+					switch x := m.(type) {
+					case *ast.BlockStmt:
+						list = x.List
+					case *ast.CaseClause:
+						list = x.Body
+					}
+					for i, st := range list {
+						restOf[st] = list[i+1:]
+					}
+					return true
+				})
 				ast.Inspect(fd.Body, func(m ast.Node) bool {
 					ifs, ok := m.(*ast.IfStmt)
 					if !ok {
+						return true
+					}
+					if acc := skipFormAsAcceptForm(ifs, restOf[ifs]); acc != nil {
+						// "if found && !(cand < best) { continue }; best = cand; found = true"
+						// is "if !found || cand < best { best = cand; found = true }"
+						c.argMinIf(info, acc, name, rule, &n)
 						return true
 					}
 					c.argMinIf(info, ifs, name, rule, &n)
@@ -257,4 +277,74 @@ func hasNotFoundDisjunct(info *types.Info, cond ast.Expr, cmp *ast.BinaryExpr, b
 		}
 	}
 	return false
+}
+
+// skipFormAsAcceptForm: ifs is a guard "if C { continue }" (or a bare return)
+// without else whose condition is a conjunction; the statements that follow it
+// in the block are what happens when C is false. Returns the equivalent
+// "if !C { rest }" with !C pushed through the conjunction (De Morgan) and
+// through the comparisons, or nil if ifs is not such a guard.
+func skipFormAsAcceptForm(ifs *ast.IfStmt, rest []ast.Stmt) *ast.IfStmt {
+	if ifs.Else != nil || ifs.Init != nil || len(ifs.Body.List) != 1 || len(rest) == 0 {
+		return nil
+	}
+	switch x := ifs.Body.List[0].(type) {
+	case *ast.BranchStmt:
+		if x.Tok != token.CONTINUE || x.Label != nil {
+			return nil
+		}
+	case *ast.ReturnStmt:
+		if len(x.Results) != 0 {
+			return nil
+		}
+	default:
+		return nil
+	}
+	var conj []ast.Expr
+	var flat func(e ast.Expr)
+	flat = func(e ast.Expr) {
+		e = ast.Unparen(e)
+		if be, ok := e.(*ast.BinaryExpr); ok && be.Op == token.LAND {
+			flat(be.X)
+			flat(be.Y)
+			return
+		}
+		conj = append(conj, e)
+	}
+	flat(ifs.Cond)
+	negate := func(e ast.Expr) ast.Expr {
+		e = ast.Unparen(e)
+		if un, ok := e.(*ast.UnaryExpr); ok && un.Op == token.NOT {
+			return ast.Unparen(un.X)
+		}
+		if be, ok := e.(*ast.BinaryExpr); ok {
+			flip := map[token.Token]token.Token{token.LSS: token.GEQ, token.GEQ: token.LSS, token.GTR: token.LEQ, token.LEQ: token.GTR}
+			if op, ok := flip[be.Op]; ok {
+				// (for NaN the two forms differ; the rule is about which of two
+				// proper ray parameters is kept)
+				return &ast.BinaryExpr{X: be.X, OpPos: be.OpPos, Op: op, Y: be.Y}
+			}
+		}
+		return &ast.UnaryExpr{OpPos: e.Pos(), Op: token.NOT, X: e}
+	}
+	hasCmp := false
+	var cond ast.Expr
+	for _, cj := range conj {
+		ne := negate(cj)
+		if be, ok := ne.(*ast.BinaryExpr); ok {
+			switch be.Op {
+			case token.LSS, token.LEQ, token.GTR, token.GEQ:
+				hasCmp = true
+			}
+		}
+		if cond == nil {
+			cond = ne
+		} else {
+			cond = &ast.BinaryExpr{X: cond, OpPos: ne.Pos(), Op: token.LOR, Y: ne}
+		}
+	}
+	if !hasCmp {
+		return nil
+	}
+	return &ast.IfStmt{If: ifs.If, Cond: cond, Body: &ast.BlockStmt{Lbrace: ifs.Body.Lbrace, List: rest, Rbrace: ifs.Body.Rbrace}}
 }
